@@ -18,6 +18,7 @@ open XrsVerif XrsVerif.AStar
 variable {F : Type} [Fl F]
 set_option linter.unusedSectionVars false
 set_option linter.unusedVariables false
+set_option linter.unusedSimpArgs false
 
 /-! ### `_is_not_crossable` -/
 
